@@ -49,6 +49,31 @@ def gen_cases(rng, tier):
             A = [[0.5 * (A[i][j] + A[j][i]) for j in range(n)] for i in range(n)]
         cases.append({'kind': 'mat', 'mkind': kind, 'n': n, 'A': A, 'B': B, 'nroots': rng.randint(1, max(1, min(3, n // 2 - 1))),
                       'eps_shift': 1e-3 if kind == 'neardegenerate' else 0.0})
+    # block structure with supplied guesses: one guess is an exact eigenvector e_0 decoupled from the rest and lying
+    # ABOVE the two lowest eigenvalues, the other guess lives in the block that contains both of them: the second Ritz
+    # value sits at lam_b (stationary) until one from the big block drops below it (roots change index while iterating)
+    import numpy
+    made = 0
+    for _try in range(60):
+        if made >= (4 if tier == 'quick' else 20):
+            break
+        n = rng.randint(12, 24)
+        coupling = rng.choice([0.3, 0.4, 0.5])
+        A = [[0.0] * n for _ in range(n)]
+        diag = [0.0, 1.3] + [2.0 + 0.5 * k for k in range(n - 3)]
+        for i in range(1, n):
+            A[i][i] = diag[i - 1]
+            for j in range(1, i):
+                v = round(rng.gauss(0, 1) * coupling / 2 * 64) / 64.0
+                A[i][j] = A[j][i] = v
+        lam_b = rng.choice([1.0, 0.9, 1.1])
+        A[0][0] = lam_b
+        ev = numpy.linalg.eigvalsh(numpy.array(A))
+        if not (ev[1] < lam_b - 0.1):
+            continue
+        made += 1
+        cases.append({'kind': 'mat', 'mkind': 'blockguess', 'n': n, 'A': A, 'B': [[0] * n for _ in range(n)], 'nroots': 2,
+                      'eps_shift': 0.0, 'guess': [0, 1]})
     for _ in range(5 if tier == 'quick' else 30):
         norb = rng.randint(4, 5)
         na = rng.randint(2, norb - 2)
@@ -75,7 +100,14 @@ def run_impl(case, mode):
             H = H.copy()
             H[0, 0] += case['eps_shift']
         try:
-            w, v = davidson.davidsonliu(H, case['nroots'], epsilon=1e-8)
+            gv = None
+            if case.get('guess'):
+                gv = []
+                for idx in case['guess']:
+                    e = numpy.zeros((n, 1))
+                    e[idx, 0] = 1.0
+                    gv.append(e)
+            w, v = davidson.davidsonliu(H, case['nroots'], guess_vecs=gv, epsilon=1e-8)
             vs = [numpy.asarray(x).reshape(-1) for x in v]
             return {'w': [float(numpy.real(x)) for x in w], 'wi': [float(numpy.imag(x)) for x in w],
                     'v': [[[float(c.real), float(c.imag)] for c in x] for x in vs],
@@ -235,7 +267,8 @@ def sample(case):
 THEOREM_FILES = ['P_C18']
 RULE = ('real symmetric and complex Hermitian integer matrices of dimension 4-10 (complex ones certified through the real '
         'embedding of twice the size) incl. exactly degenerate and near-degenerate (1e-3) low spectra, 1-3 roots, default '
-        'guesses; FQE restricted Hamiltonians through davidson_diagonalization. Every returned root gets an exact integer '
+        'guesses; block matrices with a supplied decoupled exact-eigenvector guess between the Ritz start value and the second '
+        'eigenvalue (roots change index while iterating); FQE restricted Hamiltonians through davidson_diagonalization. Every returned root gets an exact integer '
         'certificate checked by the extracted Coq checker')
 NOT_PROVED = ['the spectral theorem that turns the two quadratic-form facts (lower bound on the complement, Rayleigh quotient '
               'and residual of the returned vector) into the word eigenvalue; statements are over integer vectors (rational '
